@@ -853,6 +853,9 @@ def finding_key(case: dict, violation: dict) -> str:
 def check_reach(agg: dict, tier: str):
     st = agg["stats"]
     need = ["scenario_self", "scenario_foreign", "scenario_sharded", "scenario_symlink_in", "mode_parallel", "fault_replace_EACCES", "fault_write_ENOSPC", "fault_tensor_or_callback_raised", "fault_mkdtemp_ENOSPC", "sharded_refused_collision", "effect_copy_file_range"]
+    if not st.get("effect_mkdtemp"):
+        # the code under test creates its staging area some other way: a fault on an effect that never happens cannot fire
+        need.remove("fault_mkdtemp_ENOSPC")
     missing = [k for k in need if not st.get(k)]
     if st.get("reference_raised", 0) > 0.2 * max(1, agg["runs"]):
         return [f"fault-free reference save raised in {st.get('reference_raised')} of {agg['runs']} workloads"]
